@@ -341,6 +341,9 @@ func runC17(h *H) {
 		h.DoRisky("json.tokens", hx(d))
 		h.DoRisky("json.tokcheck", hx(d))
 	}
+	// the accessors (Kind/Bool/Int/Uint/Float/String, RawValue) against the Lean model, the specification and
+	// encoding/json's Decoder.Token() (c17acc.go)
+	genTokAcc(h)
 }
 
 // genJSONNested: documents with empty containers inside non-empty ones, keys after nested objects, deeper nesting
